@@ -124,6 +124,11 @@ _UNOPS = {ast.Not: 'not', ast.USub: '-', ast.UAdd: '+', ast.Invert: '~'}
 
 
 UNSUPPORTED = ('unsupported',)
+_OPERATOR_FNS = {'eq': (2, 'cmp', '=='), 'ne': (2, 'cmp', '!='), 'lt': (2, 'cmp', '<'), 'le': (2, 'cmp', '<='), 'gt': (2, 'cmp', '>'),
+                 'ge': (2, 'cmp', '>='), 'is_': (2, 'cmp', 'is'), 'is_not': (2, 'cmp', 'is not'), 'contains': (2, 'cmp', 'in-rev'),
+                 'xor': (2, 'binop', '^'), 'or_': (2, 'binop', '|'), 'and_': (2, 'binop', '&'), 'add': (2, 'binop', '+'),
+                 'sub': (2, 'binop', '-'), 'mul': (2, 'binop', '*'), 'truediv': (2, 'binop', '/'), 'not_': (1, 'unop', 'not'),
+                 'neg': (1, 'unop', '-'), 'getitem': (2, 'sub', None)}
 _INPLACE = {'sort', 'reverse', 'append', 'extend', 'insert', 'pop', 'remove', 'clear', 'update', 'setdefault', 'popitem', 'add', 'discard'}
 _FUNC_BY_ID = {}      # id(FunctionDef) -> node, for ('func', name, id) terms (nodes stay alive with their module)
 
@@ -152,26 +157,57 @@ def _contains(t, x):
     return False
 
 
-def _literal_term(node):
-    """term of an AST literal made only of constants (nested tuples / lists / sets / dicts / frozenset(...)), else None"""
+def _module_callables(tree):
+    """names bound at module level to functions / classes (defined or imported): usable as values in literal tables"""
+    cache = getattr(tree, '_callables', None)
+    if cache is None:
+        cache = set()
+        for s_ in tree.body:
+            if isinstance(s_, (ast.FunctionDef, ast.ClassDef)):
+                cache.add(s_.name)
+            elif isinstance(s_, ast.ImportFrom):
+                for al in s_.names:
+                    cache.add(al.asname or al.name)
+        cache |= {'int', 'float', 'str', 'bool', 'list', 'tuple', 'dict', 'set', 'len'}
+        try:
+            tree._callables = cache
+        except Exception:
+            pass
+    return cache
+
+
+def _literal_term(node, tree=None):
+    """term of an AST literal made only of constants (nested tuples / lists / sets / dicts / frozenset(...)); with `tree`
+    (the module) also names of its functions / classes and calls of its record classes on literals; else None"""
     if isinstance(node, ast.Constant):
         return ('const', node.value)
+    if tree is not None and isinstance(node, ast.Name) and node.id in _module_callables(tree):
+        return ('name', node.id)
+    if tree is not None and isinstance(node, ast.Call) and isinstance(node.func, ast.Name) and not any(isinstance(a, ast.Starred) for a in node.args) \
+            and all(k.arg is not None for k in node.keywords):
+        cls_ = [s_ for s_ in tree.body if isinstance(s_, ast.ClassDef) and s_.name == node.func.id]
+        if cls_ and _record_fields_of(cls_[0]) is not None:
+            args = [_literal_term(a, tree) for a in node.args]
+            kws = [(k.arg, _literal_term(k.value, tree)) for k in node.keywords]
+            if all(a is not None for a in args) and all(v is not None for _, v in kws):
+                args, kws = _positional([f for f, _ in _record_fields_of(cls_[0])], args, tuple(kws))
+                return ('call', ('name', node.func.id), tuple(args), tuple(kws))
     if isinstance(node, ast.UnaryOp) and isinstance(node.op, ast.USub) and isinstance(node.operand, ast.Constant) \
             and isinstance(node.operand.value, (int, float)):
         return ('const', -node.operand.value)
     if isinstance(node, (ast.Tuple, ast.List, ast.Set)):
-        items = [_literal_term(e) for e in node.elts]
+        items = [_literal_term(e, tree) for e in node.elts]
         if any(i is None for i in items):
             return None
         return ({ast.Tuple: 'tuple', ast.List: 'list', ast.Set: 'set'}[type(node)], tuple(items))
     if isinstance(node, ast.Dict):
-        ks = [_literal_term(k) if k is not None else None for k in node.keys]
-        vs = [_literal_term(v) for v in node.values]
+        ks = [_literal_term(k, tree) if k is not None else None for k in node.keys]
+        vs = [_literal_term(v, tree) for v in node.values]
         if any(k is None for k in ks) or any(v is None for v in vs):
             return None
         return ('dict', tuple(zip(ks, vs)))
     if isinstance(node, ast.UnaryOp) and isinstance(node.op, (ast.USub, ast.UAdd)):
-        inner = _literal_term(node.operand)
+        inner = _literal_term(node.operand, tree)
         if inner is not None and inner[0] in ('call', 'attr'):
             return ('unop', '-' if isinstance(node.op, ast.USub) else '+', inner)
     if isinstance(node, ast.Call) and isinstance(node.func, ast.Name) and node.func.id in ('float', 'int', 'str') \
@@ -182,7 +218,7 @@ def _literal_term(node):
         return ('attr', ('name', node.value.id), node.attr)
     if isinstance(node, ast.Call) and isinstance(node.func, ast.Name) and node.func.id in ('frozenset', 'set', 'tuple') \
             and len(node.args) == 1 and not node.keywords:
-        inner = _literal_term(node.args[0])
+        inner = _literal_term(node.args[0], tree)
         if inner is not None and inner[0] in ('tuple', 'list', 'set'):
             return ('set' if node.func.id != 'tuple' else 'tuple', inner[1])
     return None
@@ -214,13 +250,35 @@ def mk_comp(kind, elt, gens):
 SKIP = ('skip-iteration',)
 
 
+def _branches_without_exit(loop):
+    """does the loop body contain an `if` both of whose outcomes go on with the iteration?  (unrolling n iterations of such
+    a body multiplies the paths by 2 per iteration)"""
+    for n in ast.walk(loop):
+        if isinstance(n, ast.If) and n is not loop:
+            exits = any(isinstance(x, (ast.Return, ast.Raise, ast.Break, ast.Continue)) for b in n.body for x in ast.walk(b))
+            if not exits:
+                return True
+    return False
+
+
 def _literal_seq(t, limit=16):
     """items of a literal tuple / list term whose members are constants (or tuples of constants), else None"""
     def lit(x):
-        return x[0] == 'const' or (x[0] in ('tuple', 'list') and all(lit(y) for y in x[1]))
+        return x[0] == 'const' or (x[0] in ('tuple', 'list') and all(lit(y) for y in x[1])) or \
+            (x[0] == 'dict' and all(k is not None and lit(k) and lit(v) for k, v in x[1])) or \
+            (x[0] == 'name') or (x[0] == 'call' and x[1][0] == 'name' and all(lit(y) for y in x[2]) and all(lit(v) for _, v in x[3]))
     if t[0] in ('tuple', 'list') and 0 < len(t[1]) <= limit and all(lit(x) for x in t[1]):
         return list(t[1])
     return None
+
+
+def _record_fields_of(cls):
+    """[(field, default AST or None)] of a NamedTuple / dataclass class definition without hand-written __init__, else None"""
+    if any(isinstance(s_, ast.FunctionDef) and s_.name in ('__init__', '__new__') for s_ in cls.body):
+        return None
+    is_record = any('NamedTuple' in src(b) for b in cls.bases) or any('dataclass' in src(d) for d in cls.decorator_list)
+    fields = [(s_.target.id, s_.value) for s_ in cls.body if isinstance(s_, ast.AnnAssign) and isinstance(s_.target, ast.Name)]
+    return fields if fields and is_record else None
 
 
 def _positional(sig, args, kws):
@@ -529,6 +587,19 @@ class SymExec(object):
                 for k, v in b[2]:
                     if k == n.attr:
                         return v
+            if b[0] == 'call' and b[1][0] == 'name':
+                # field of a value built by a record constructor (NamedTuple / dataclass): the argument it was given
+                flds = self.record_fields(b[1])
+                if flds is not None and n.attr in flds:
+                    i_ = flds.index(n.attr)
+                    if i_ < len(b[2]):
+                        return b[2][i_]
+                    for k, v in b[3]:
+                        if k == n.attr:
+                            return v
+                    d_ = self.record_default(b[1], n.attr)
+                    if d_ is not None:
+                        return d_
             t = ('attr', b, n.attr)
             k = dotted_key(t)
             if k is not None and k in st.env:
@@ -576,6 +647,40 @@ class SymExec(object):
                 if sig is not None:
                     args, kws = _positional(sig, args, kws)
             t = ('call', f, tuple(args), kws)
+            if f[0] == 'ifexp' and f[2][0] != 'ifexp' or (f[0] == 'ifexp' and f[3][0] in ('name', 'func', 'sym', 'ifexp')):
+                # calling a function chosen by a conditional (a dispatch table lookup) = choosing among the calls
+                def spread(ft):
+                    if ft[0] == 'ifexp':
+                        return ('ifexp', ft[1], spread(ft[2]), spread(ft[3]))
+                    if ft[0] == 'sym' and ft[1] == 'key-error':
+                        return ft
+                    ct = ('call', ft, tuple(args), kws)
+                    fd_ = self.resolve(ft, st) if self.inline else None
+                    if fd_ is not None:
+                        r_ = self.inline_expr(fd_, ft, tuple(args), kws, st)
+                        if r_ is not None:
+                            return r_
+                    st.events.append(('call', ct, n))
+                    return ct
+                return spread(f)
+            if f[0] == 'attr' and f[2] == '_asdict' and not args and not kws and f[1][0] == 'call' and f[1][1][0] == 'name':
+                flds = self.record_fields(f[1][1])
+                if flds is not None and len(f[1][2]) + len(f[1][3]) == len(flds):
+                    vals_ = list(f[1][2]) + [dict(f[1][3]).get(x) for x in flds[len(f[1][2]):]]
+                    if all(v is not None for v in vals_):
+                        return ('dict', tuple((('const', k_), v_) for k_, v_ in zip(flds, vals_)))
+            if f[0] == 'attr' and f[1] == ('name', 'operator') and f[2] in _OPERATOR_FNS and len(args) == _OPERATOR_FNS[f[2]][0] and not kws:
+                kind_, op_ = _OPERATOR_FNS[f[2]][1:]
+                if kind_ == 'cmp':
+                    if op_ == 'in-rev':
+                        return ('cmp', 'in', args[1], args[0])
+                    return ('cmp', op_, args[0], args[1])
+                if kind_ == 'binop':
+                    return ('binop', op_, args[0], args[1])
+                if kind_ == 'unop':
+                    return ('unop', op_, args[0])
+                if kind_ == 'sub':
+                    return ('sub', args[0], args[1])
             if f == ('name', 'dict') and not args and kws and all(k is not None for k, _ in kws):
                 return ('dict', tuple((('const', k), v) for k, v in kws))      # dict(a=1) is {'a': 1}
             if f == ('name', 'list') and len(args) == 1 and not kws and args[0][0] in ('genexp', 'listcomp'):
@@ -637,20 +742,37 @@ class SymExec(object):
             v = E(n.operand)
             if isinstance(n.op, ast.USub) and v[0] == 'const' and isinstance(v[1], (int, float)) and not isinstance(v[1], bool):
                 return ('const', -v[1])
+            if isinstance(n.op, ast.Not) and v[0] == 'const':
+                return ('const', not v[1])
             return ('unop', _UNOPS.get(type(n.op), '?'), v)
         if isinstance(n, ast.BoolOp):
             is_and = isinstance(n.op, ast.And)
             vals = []
             depth = len(self._guard)
-            for v in n.values:
+            for i_, v in enumerate(n.values):
                 t = E(v)
+                last = i_ == len(n.values) - 1
+                if t[0] == 'const' and not last:
+                    # a constant operand decides here or drops out:  True and x = x,  False and x = False  (dually for or)
+                    if bool(t[1]) == is_and:
+                        continue
+                    vals.append(t)
+                    break
                 vals.append(t)
                 self._guard.append((t, is_and))     # later operands run only if this one was truthy (and) / falsy (or)
             del self._guard[depth:]
+            if len(vals) == 1:
+                return vals[0]
             return ('bool', 'and' if is_and else 'or', tuple(vals))
         if isinstance(n, ast.Compare):
             if len(n.ops) == 1:
-                return ('cmp', _CMPOPS.get(type(n.ops[0]), '?'), E(n.left), E(n.comparators[0]))
+                l_, r_ = E(n.left), E(n.comparators[0])
+                op_ = _CMPOPS.get(type(n.ops[0]), '?')
+                if l_[0] == 'const' and r_[0] == 'const' and op_ in ('==', '!=', 'is', 'is not') and type(l_[1]) == type(r_[1]):
+                    return ('const', (l_[1] == r_[1]) == (op_ in ('==', 'is')))
+                if l_[0] == 'const' and op_ in ('in', 'not in') and r_[0] in ('tuple', 'list', 'set') and all(x[0] == 'const' for x in r_[1]):
+                    return ('const', (l_ in r_[1]) == (op_ == 'in'))
+                return ('cmp', op_, l_, r_)
             parts = []
             left = n.left
             for op, c in zip(n.ops, n.comparators):
@@ -659,6 +781,8 @@ class SymExec(object):
             return ('bool', 'and', tuple(parts))
         if isinstance(n, ast.IfExp):
             c = E(n.test)
+            if c[0] == 'const':
+                return E(n.body) if c[1] else E(n.orelse)
             self._guard.append((c, True))
             a = E(n.body)
             self._guard[-1] = (c, False)
@@ -741,8 +865,8 @@ class SymExec(object):
                 for t in tg:
                     if isinstance(t, ast.Name):
                         seen[t.id] = seen.get(t.id, 0) + 1
-                        lit = _literal_term(val)
-                        if lit is not None:
+                        lit = _literal_term(val, modtree)
+                        if lit is not None and not (lit[0] == 'name'):
                             consts[t.id] = lit
             for k, cnt in seen.items():
                 if cnt != 1:
@@ -822,6 +946,15 @@ class SymExec(object):
         bases = [src(b) for b in cls.bases]
         is_record = any('NamedTuple' in b for b in bases) or any('dataclass' in src(d) for d in cls.decorator_list)
         return fields if fields and is_record else None
+
+    def record_default(self, f, field):
+        cls = self._class_named(f[1]) if f[0] == 'name' else None
+        if cls is None:
+            return None
+        for fld, dflt in (_record_fields_of(cls) or []):
+            if fld == field and dflt is not None:
+                return _literal_term(dflt, self.modtree)
+        return None
 
     def signature(self, f):
         """positional parameter names of the repository function / method a call target denotes (receiver removed), for
@@ -1176,7 +1309,8 @@ class SymExec(object):
                         yield r
         elif isinstance(s, ast.For) and self.fold_loops and self._fold_loop(s, st):
             yield st, 'fall'
-        elif isinstance(s, ast.For) and self.fold_loops and _literal_seq(self.ev(s.iter, st.copy())) is not None:
+        elif isinstance(s, ast.For) and self.fold_loops and _literal_seq(self.ev(s.iter, st.copy())) is not None \
+                and not (len(_literal_seq(self.ev(s.iter, st.copy()))) > 6 and _branches_without_exit(s)):
             # a loop over a literal table is the sequence of its iterations
             items = _literal_seq(self.ev(s.iter, st))
             st.events.append(('loop-literal', ('tuple', tuple(items)), s))
@@ -1695,6 +1829,8 @@ def expand_cond(c, pol, limit=32):
     (elementary test, polarity).  `if a or b:` then walks exactly like `if a: ... elif b: ...`."""
     if c[0] == 'unop' and c[1] == 'not':
         return expand_cond(c[2], not pol, limit)
+    if c[0] == 'const':
+        return [[]] if bool(c[1]) == pol else []       # a constant test has only one outcome
     if c[0] == 'bool':
         conj = (c[1] == 'and') == pol          # all members must come out `pol`
         if conj:
